@@ -12,6 +12,9 @@ def run(tier, seed, prop='C04'):
                        'iteration / event (queue rule), and implies the postcondition over the returned (trimmed) arrays, for all '
                        'graphs, rates, horizons, weights and initial sets. "ends with no infected node" is proved for the Gillespie '
                        'simulators (unbounded horizon, gamma>0).')
+    # discrete-time simulators: rows t[j] = tmin + j <= tmax, counts >= 0 summing to N (S non-increasing, R non-decreasing for SIR)
+    from . import C12
+    rep.add_unit_results(util.run_jobs(util.jobs_for(C12.reg, tier=tier, quals={'discrete_SIR', 'basic_discrete_SIS'})))
     from ..replay import sim_native
     rep.bounded_is_supplementary = True
     rep.add(util.native_ob('native:rows-well-formed:all-simulators', 'EoN/simulation.py:(all simulators)', sim_native.c04_native,
